@@ -158,6 +158,7 @@ package vnet
 //@   requires from != nil && n.natType.Mode == NATModeNormal && len(n.mappedIPs) > 0 && n.natType.MappingLifeTime >= 0 &&
 //@            n.natType.FilteringBehavior <= EndpointAddrPortDependent && n.natType.MappingBehavior <= EndpointAddrPortDependent
 //@   modifies clock, tLook, chSrc, chSrcIP
+//@   ensures [time] clock >= old(clock)
 //@   ensures [udponly] chNet[ref(from)] != "udp" ==> to == nil && err == errNonUDPTranslationNotSupported
 //@   ensures [noerror] chNet[ref(from)] == "udp" ==> err == nil
 //@   ensures [source] to != nil ==> (n.okey(chSrc[ref(from)], n.boundOf(from)) in n.outboundMap) &&
@@ -258,6 +259,62 @@ package vnet
 //@   loop 1 invariant [fifo] timer != nil && timer.C != nil && f.queue.head - old(f.queue.head) == fwdN - old(fwdN) && fwdN >= old(fwdN) &&
 //@        (forall k mathint :: {fwdNIC[k]} old(fwdN) <= k && k < fwdN ==> dfLog(k, ref(f.NIC), old(f.queue.head) + k - old(fwdN)))
 //@   ghost after pop#1: assert [popped] result$1 && ref(next) == ref(result$0) && tag(result$0) == tagof(timedChunk); fwdIdx[fwdN] = f.queue.head - 1; fwdItem[fwdN] = ref(next); fwdTick[fwdN] = now
+
+// ---- router forwarding loop (C14): minimum delay is a lower bound; the hand-offs follow the queue order, each queued
+// ---- chunk at most once.  chStamp: the time a chunk entered the router (set by Router.push before queueing).
+//@ monitor Router mutex: lastID, children, nics, stopFunc, chunkFilters
+//@ invariant (r *Router) filtersNonNil: forall i mathint :: {r.chunkFilters[i]} 0 <= i && i < len(r.chunkFilters) ==> r.chunkFilters[i] != nil
+//@ invariant (r *Router) nicsNonNil: forall s string :: {s in r.nics} (s in r.nics) ==> r.nics[s] != nil
+//@ ghost global chStamp map[mathint]mathint
+//@ ghost global upN mathint
+//@ ghost global upRouter map[mathint]mathint
+//@ ghost global upChunk map[mathint]mathint
+//@ ghost global rtIdx mathint
+//@ ghost global rtItem mathint
+//@ ghost global rtHanded mathint
+//@ ghost global rtEntered mathint
+//@ func (c Chunk) setTimestamp() (t time.Time)
+//@   modifies clock, chStamp
+//@   ensures clock >= old(clock) && t == clock && chStamp == upd(old(chStamp), ref(c), clock)
+//@ func (c Chunk) getTimestamp() (t time.Time)
+//@   pure
+//@   ensures t == chStamp[ref(c)]
+
+//@ func (r *Router) AddChunkFilter(filter ChunkFilter)
+//@   requires filter != nil
+
+//@ func (r *Router) push(c Chunk)
+//@   requires c != nil && r.queue != nil && r.log != nil
+//@   modifies clock, chStamp, lastPushed, upN, upRouter, upChunk
+//@   ensures [log] upN == old(upN) + 1 && upRouter[old(upN)] == ref(r) && upChunk[old(upN)] == ref(c)
+//@   ensures [keep] forall k mathint :: {upRouter[k]} k < old(upN) ==> upRouter[k] == old(upRouter[k]) && upChunk[k] == old(upChunk[k])
+//@   ensures [stamp] atlock(r.stopFunc != nil) ==> chStamp[ref(c)] == clock && lastPushed == ref(c)
+//@   ensures [time] clock >= old(clock)
+//@   ensures [stopped] atlock(r.stopFunc == nil) ==> chStamp == old(chStamp) && lastPushed == old(lastPushed)
+//@   ensures [others] forall x mathint :: {chStamp[x]} x != ref(c) ==> chStamp[x] == old(chStamp[x])
+//@   ghost at return: upRouter[upN] = ref(r); upChunk[upN] = ref(c); upN = upN + 1
+
+//@ func (r *Router) processChunks() (d time.Duration, err error)
+//@   role consumer
+//@   requires r.queue != nil && r.ipv4Net != nil && r.log != nil && r.minDelay >= 0 && (r.parent != nil ==> r.parent.queue != nil && r.parent.log != nil)
+//@   requires r.parent != nil ==> r.nat != nil && r.nat.natType.Mode == NATModeNormal && len(r.nat.mappedIPs) > 0 && r.nat.natType.MappingLifeTime >= 0 &&
+//@            r.nat.natType.FilteringBehavior <= EndpointAddrPortDependent && r.nat.natType.MappingBehavior <= EndpointAddrPortDependent
+//@   modifies randLast, clock, tLook, chSrc, chSrcIP, chStamp, lastPushed, fwdN, fwdNIC, fwdChunk, fwdTick, fwdIdx, fwdItem, upN, upRouter, upChunk, rtIdx, rtItem, rtHanded, rtEntered
+//@   ensures [popped] r.queue.head >= old(r.queue.head)
+//@   ensures [due] forall k mathint :: {fwdNIC[k]} old(fwdN) <= k && k < fwdN ==> chStamp[fwdChunk[k]] + r.minDelay <= fwdTick[k] && fwdTick[k] <= clock && old(clock) <= fwdTick[k]
+//@   ensures [fifo] forall k mathint :: {fwdNIC[k]} old(fwdN) <= k && k < fwdN ==> old(r.queue.head) <= fwdIdx[k] && fwdIdx[k] < r.queue.head &&
+//@            fwdItem[k] == fwdChunk[k] && (k > old(fwdN) ==> fwdIdx[k - 1] < fwdIdx[k])
+//@   loop 1 invariant [lock] held(r.mutex) && r.inv()
+//@   loop 1 invariant [view] r.queue.head >= old(r.queue.head) && rtHanded < r.queue.head && rtHanded >= old(r.queue.head) - 1 && rtEntered == enteredAt && enteredAt <= clock &&
+//@            cutOff == enteredAt - r.minDelay && fwdN >= old(fwdN) && (fwdN > old(fwdN) ==> fwdIdx[fwdN - 1] <= rtHanded)
+//@   loop 1 invariant [due] forall k mathint :: {fwdNIC[k]} old(fwdN) <= k && k < fwdN ==> chStamp[fwdChunk[k]] + r.minDelay <= fwdTick[k] && fwdTick[k] <= enteredAt
+//@   loop 1 invariant [fifo] forall k mathint :: {fwdNIC[k]} old(fwdN) <= k && k < fwdN ==> old(r.queue.head) <= fwdIdx[k] && fwdIdx[k] <= rtHanded &&
+//@            fwdItem[k] == fwdChunk[k] && (k > old(fwdN) ==> fwdIdx[k - 1] < fwdIdx[k])
+//@   ghost after Now#1: rtHanded = r.queue.head - 1; rtEntered = result$
+//@   loop 2 invariant [idx] 0 <= i
+//@   ghost after pop#1: assert [head] result$1 ==> ref(result$0) == ref(chunk); rtIdx = r.queue.head - 1; rtItem = ref(result$0)
+//@   ghost before onInboundChunk#1: assert [due] chStamp[ref(chunk)] + r.minDelay <= rtEntered; assert [once] rtHanded < rtIdx && rtItem == ref(chunk); rtHanded = rtIdx; fwdIdx[fwdN] = rtIdx; fwdItem[fwdN] = rtItem; fwdTick[fwdN] = rtEntered
+//@   ghost before push#1: assert [dueup] chStamp[rtItem] + r.minDelay <= rtEntered; assert [onceup] rtHanded < rtIdx; rtHanded = rtIdx
 
 // ---- address assignment (C13)
 //@ axiom ip4Inj: forall a, b, c, d, e, f, g, h mathint :: {ip4str(a, b, c, d), ip4str(e, f, g, h)} ip4str(a, b, c, d) == ip4str(e, f, g, h) ==> a == e && b == f && c == g && d == h
@@ -499,7 +556,7 @@ package vnet
 //@ field Router chunkFilters guarded_by mutex
 //@ field Router minDelay immutable
 //@ field Router maxJitter immutable
-//@ field Router pushCh immutable
+//@ field Router pushCh openchan
 //@ field Router loggerFactory immutable
 //@ field Router log immutable
 //@ field Net interfaces config setRouter,NewNet,addNIC
